@@ -15,6 +15,10 @@
                                          handed to the socket at lo; hi = first entry of a handler of that set for
                                          that event (bg: the sentinel pins it), else the time the sync completed
        c kind serial hid count 0         handler hid was invoked count (>0) times by that dispatch
+     or ["hung"; description]: a registry call, or the handlers of an event, did not complete within the
+       harness's budget (3 s; normal is microseconds) — the description names the calls in flight.
+       "Registering or removing handlers from within a handler neither deadlocks ..." is part of the
+       property: the oracle is FALSE.  ["notrun"]: the run was stopped after 3 hung cases (not judged).
    e_oracle: C04_ok on the stamped registrations and snapshots (must <= count <= may).
    e_model / e_agree: the CONCRETE pointer model run on the linearisation that puts every call at
    its return stamp and every snapshot at hi; compared with the observed counts wherever the
@@ -88,8 +92,13 @@ Definition obs_shape_ok (inp obs : list (list bytes)) : bool :=
   && (Z.of_nat (length ss) =? 2 * n)
   && forallb (fun r => beq (get r 0) tag_r || beq (get r 0) tag_s || beq (get r 0) tag_c) obs.
 
+Definition tag_hung : bytes := [104;117;110;103]%N.
+Definition tag_notrun : bytes := [110;111;116;114;117;110]%N.
+
 Definition oracle_C04 (i o : list bytes) : bool :=
   let inp := recs 4 (tl i) in let obs := recs 6 o in
+  if beq (get o 0) tag_hung then false else
+  if beq (get o 0) tag_notrun then true else
   match obs_regs inp obs with
   | Some regs => obs_shape_ok inp obs && C04_ok (map snd regs) (map snd (obs_snaps inp obs))
   | None => false
@@ -149,6 +158,8 @@ Definition predict (inp obs : list (list bytes)) : option (list ((Z * snapobs) *
 (* agreement wherever the intervals leave no latitude *)
 Definition agree_C04 (i o : list bytes) : bool :=
   let inp := recs 4 (tl i) in let obs := recs 6 o in
+  if beq (get o 0) tag_hung then false else     (* the model has no deadlock: C04_no_deadlock *)
+  if beq (get o 0) tag_notrun then true else
   match obs_regs inp obs, predict inp obs with
   | Some regs, Some p =>
       let rs := map snd regs in
